@@ -400,6 +400,88 @@ static json op_exprs(const json& req)
 
 // TigaPropertyBuilder strips the control wrapper from PropInfo::intermediate and records it in
 // PropInfo::type; the text of the whole query is that prefix plus str(intermediate).
+// C19: equality as a relation over a pool of expressions (symmetry, transitivity, text, discrimination)
+static json op_equalpool(const json& req)
+{
+    json out;
+    Context& c = get_context(req["ctx"]);
+    out["ctx"] = c.info;
+    Document& doc = *c.doc;
+    bool newxta = req.value("newxta", true);
+    std::vector<expression_t> es;
+    std::vector<std::string> sx, st, src;
+    SexprOpts so;
+    so.sym_types = true;
+    for (auto& it : req["items"]) {
+        std::string text = it.get<std::string>();
+        doc.clear_errors();
+        expression_t e;
+        size_t n = 0;
+        json g;
+        guarded(g, [&] {
+            ExpressionBuilder eb(doc);
+            parse_XTA(text.c_str(), &eb, newxta, S_EXPRESSION, "");
+            n = eb.getExpressions().size();
+            if (n >= 1)
+                e = eb.getExpressions()[0];
+        });
+        if (!g["exc"].is_null() || n != 1 || doc.has_errors() || e.empty())
+            continue;
+        json g2;
+        guarded(g2, [&] {
+            TypeChecker tc(doc);
+            tc.checkExpression(e);
+        });
+        doc.clear_errors();
+        es.push_back(e);
+        sx.push_back(sexpr(e, so));
+        std::string s;
+        json g3;
+        guarded(g3, [&] { s = e.str(); });
+        st.push_back(s);
+        src.push_back(text);
+    }
+    size_t n = es.size();
+    std::vector<std::vector<char>> eq(n, std::vector<char>(n, 0));
+    std::vector<std::string> fails;
+    auto fail = [&](const std::string& f) {
+        if (fails.size() < 20)
+            fails.push_back(f);
+    };
+    for (size_t i = 0; i < n; ++i)
+        for (size_t j = 0; j < n; ++j)
+            eq[i][j] = es[i].equal(es[j]) ? 1 : 0;
+    size_t pairs = 0, triples = 0, equal_pairs = 0;
+    for (size_t i = 0; i < n; ++i) {
+        if (!eq[i][i])
+            fail("not-reflexive: " + src[i]);
+        for (size_t j = 0; j < n; ++j) {
+            ++pairs;
+            if (eq[i][j] != eq[j][i])
+                fail("not-symmetric: " + src[i] + " | " + src[j]);
+            if (eq[i][j] && i != j)
+                ++equal_pairs;
+            if (eq[i][j] && st[i] != st[j])
+                fail("equal-but-different-text: " + src[i] + " | " + src[j]);
+            if (sx[i] != sx[j] && eq[i][j])
+                fail("equal-despite-different-tree: " + src[i] + " | " + src[j]);
+            if (!eq[i][j])
+                continue;
+            for (size_t k = 0; k < n; ++k) {
+                ++triples;
+                if (eq[j][k] && !eq[i][k])
+                    fail("not-transitive: " + src[i] + " | " + src[j] + " | " + src[k]);
+            }
+        }
+    }
+    out["n"] = n;
+    out["pairs"] = pairs;
+    out["triples"] = triples;
+    out["equal_pairs"] = equal_pairs;
+    out["fails"] = fails;
+    return out;
+}
+
 static std::string query_prefix(int qt)
 {
     switch ((quant_t)qt) {
@@ -516,6 +598,8 @@ static json dispatch(const json& req)
         return op_exprs(req);
     if (op == "queries")
         return op_queries(req);
+    if (op == "equalpool")
+        return op_equalpool(req);
     if (op == "pm")
         return op_pm(req);
     if (op == "block")
